@@ -140,12 +140,14 @@ CHECKS["C18"] = dict(
     text="merge_dicts: the real body is executed on two ABSTRACT dictionaries (any size, keys, values; pyvc abstract "
          "maps): both loops run for one generic key, the recursive call goes through the contract (induction on nesting "
          "depth), and the result is proved pointwise equal to the deep later-wins Merge, arguments unwritten. "
-         "registry.get is compared with an independent name-ordered fold (Merge / concatenation / v2 expansion) of the "
+         "registry.get: the real body is executed over directories of 0..4 files with ABSTRACT contents (glob returns "
+         "them out of order; merge_dicts / parse_v2 through their contracts) and its result proved to be the left fold "
+         "in file-name order; it is also compared with an independent name-ordered fold of the "
          "bundled files - exhaustive for this tree - and of a scratch package with order-sensitive overlay files; "
          "parse_v2 and small-scope merge_dicts enumerations are bounded cross-checks.",
     design_ref="DESIGN.md C18, 0.2",
-    note="Proved: the contract of merge_dicts for all dictionaries. Bounded / exhaustive-on-bundled: parse_v2, the "
-         "file fold of get(). json / file system assumed.",
+    note="Proved: the contract of merge_dicts for all dictionaries; the fold of get() for all file contents (number of "
+         "files <= 4: bounded in that dimension). Bounded: parse_v2. json / file system assumed.",
     technique="contract-based deductive verification of merge_dicts over abstract maps (pyvc generic-key loops, z3) + "
               "bounded stand-ins for parse_v2/get")
 
